@@ -279,6 +279,18 @@ func runC10(r *Report, tier string) {
 			r.ob("R10.4", fmt.Sprintf("%s:%s:%s:footprint", shortFn(F), key, pathID(p)), F, p.ret, "the parent's unprotected headers do not contribute").check(bad == "", fmt.Sprintf("%d load leaves, none unprotected", len(loads)), "the countersigned bytes depend on "+bad)
 		}
 	}
+	// R10.4 control footprint: nothing in the builder's call tree reads the
+	// parent's unprotected bucket (its outcome cannot depend on it either)
+	{
+		var bad []string
+		reads := P.fieldsRead(F, tp)
+		for _, f := range reads {
+			if strings.HasSuffix(f, "Unprotected") {
+				bad = append(bad, f)
+			}
+		}
+		r.ob("R10.4", shortFn(F)+":control-footprint", F, nil, "the builder and the functions it hands the parent to read no field of the parent's unprotected bucket").check(len(bad) == 0, fmt.Sprintf("parent fields read: %v", reads), "the builder's outcome can depend on the parent's "+strings.Join(bad, ", ")+" (read in its call tree)")
+	}
 	// all 8 cells present
 	var missing []string
 	for kind := range csTable {
